@@ -452,8 +452,8 @@ def run(tier, seed):
     return cov, violations
 
 OPEN_ITEMS = [
-    "C06_unify_complete (unbounded, typed axes): proved by agent-UNIFY on its own branch (Proofs/Axis_complete_gen.v, Axis_typed.v, Axis_mgu.v); in this tree the bounded stop-gaps C06_unify_complete_upto12 / C06_unify_complete_2d_upto6 plus the brute-force coincidence oracle on every implementation unifier",
-    "fuel sufficiency of unify beyond the bound (a divergence of the model would show as verdict 14)",
+    "CLOSED (notes/UNIFY.md section 6): unify completeness on typed axes is unbounded AND total -- C06_unify_complete_model_fuel: with the fuel the model itself uses, unify answers on every typed pair of patterns, has not warned, and returns a most general unifier / reports disjointness; no side condition is left. The former fuel formula of the model (6 * nodes + 10) was REFUTED (C06_unify_fuel_old_refuted: a.X = X.a' with X = PhysicalAxis(2**16) needs 49 > 46; a finding about the model, not about /repo, which has no fuel) and replaced by one that provably suffices (old term + 3 * (Sum nodes + 1) * (log2 of the largest dimension + 1)); the bounded theorems C06_unify_complete_upto12 / _2d_upto6 and the brute-force coincidence oracle on every implementation unifier stay as cross-checks",
+    "C06_ty_has_type is one direction only: the converse (has_type e t = true, normal, linear -> typed in some context) is tied by the sound checker ty_b on the generator's universes, not proved in general",
     "C06_reshape_refines_partial: carries explicit premises about the unifier of that call (complete_for = conclusion of C_unify, solvable = model_exists, size_preserving = wts_ty + ty_numel, wf of the result); they are discharged by agent-UNIFY's theorems for typed tensors after the merge; C06_reshape_unify_succeeds is stated with the completeness of the call as a premise; success of the remaining asserts of reshape_or_view on adjacent merges / size-1 insertion or removal is checked by the correspondence (must_succeed flag, verdict 5) only",
     "where / stack / project: Gallina models (Model/PTensorOps.v) tied to the code by pt_check_select / pt_check_reduce on generated cases and judged by the dense specification spec_op2; refinement theorems open (where and project need unify completeness); any is proved (C06_any) under the guard 'dimension not empty or default false' (C06_any_empty_dim_refuted), dim_to_dense is proved (C06_dim_to_dense) under the guard 'a size-1 dimension is unitAxis'",
     "copy_: value semantics proved (C06_copy); the storage re-use rule (copy_reuses) is correspondence only (observed through data_ptr)",
@@ -498,7 +498,7 @@ def replay(path):
 
 MANIFEST = dict(
     level="proof",
-    text="Coq theorems about a Gallina model of fggs/indices.py's axis algebra (eval bound, stride = affine form, index inverts eval, pattern injectivity = at most one backing element, unify soundness, antiunify generalises both arguments and records parts of equal sizes, bounded completeness of unify on typed axes) and of PatternedTensor: to_dense = denote, view operations, unary maps, binary / commutative / sub / div through expansion WITH broadcasting (operands of different rank, unit dimensions), __post_init__, dense construction / full / from_int / eye, default_to, getitem (never raises in range), clone/freshen, copy_ and to (value semantics), reshape (under explicit premises about the unifier), any (both code paths), dim_to_dense, preservation of the representation invariant by every constructor and its equivalence with the monitor's oracle; Gallina models of where, stack, project, copy_'s storage rule. The models are tied to /repo by running both on generated typed axes/patterns; brute-force specifications judge every implementation output; every listed tensor operation and compositions of up to three are compared with torch on the denoted dense tensors; every PatternedTensor constructed inside the library is checked against the extracted representation invariant.",
-    note="Trusted: Coq kernel + vm_compute, extraction cross-checked against vm_compute, the Python harness (numbering of PhysicalAxis objects, independent evaluator of axes), torch's dense kernels as reference. All findings of this check (F1, F16, F16b, F21, F22, F23) are repaired in /repo; F24 (one-element sum types, outside the generated domain) is documented with a Coq witness. Open: unbounded unify completeness lives on agent-UNIFY's branch; reshape's theorem carries unifier premises; where / stack / project are model + correspondence.",
+    text="Coq theorems about a Gallina model of fggs/indices.py's axis algebra (eval bound, stride = affine form, index inverts eval, pattern injectivity = at most one backing element, unify soundness, antiunify generalises both arguments and records parts of equal sizes, completeness of unify on typed axes -- unbounded, and total with the fuel formula of the model: C06_unify_complete / C06_unify_complete_model_fuel; bounded universes as a cross-check) and of PatternedTensor: to_dense = denote, view operations, unary maps, binary / commutative / sub / div through expansion WITH broadcasting (operands of different rank, unit dimensions), __post_init__, dense construction / full / from_int / eye, default_to, getitem (never raises in range), clone/freshen, copy_ and to (value semantics), reshape (under explicit premises about the unifier), any (both code paths), dim_to_dense, preservation of the representation invariant by every constructor and its equivalence with the monitor's oracle; Gallina models of where, stack, project, copy_'s storage rule. The models are tied to /repo by running both on generated typed axes/patterns; brute-force specifications judge every implementation output; every listed tensor operation and compositions of up to three are compared with torch on the denoted dense tensors; every PatternedTensor constructed inside the library is checked against the extracted representation invariant.",
+    note="Trusted: Coq kernel + vm_compute, extraction cross-checked against vm_compute, the Python harness (numbering of PhysicalAxis objects, independent evaluator of axes), torch's dense kernels as reference. All findings of this check (F1, F16, F16b, F21, F22, F23) are repaired in /repo; F24 (one-element sum types, outside the generated domain) is documented with a Coq witness. The fuel formula of the model of unify was found insufficient (C06_unify_fuel_old_refuted; the code has no fuel) and replaced by one proved sufficient for all typed patterns. Open: reshape's theorem carries unifier premises; where / stack / project are model + correspondence.",
     technique="Coq proof (model + theorems) + model/implementation correspondence with brute-force specification oracles + differential testing against torch on denotations + runtime invariant monitor",
     design_ref="DESIGN.md section 6, C06; Appendix A.6; Appendix C")
